@@ -12,6 +12,7 @@
 import LdkModel.Proofs.Restart
 import LdkModel.Proofs.Reconstruct
 import LdkModel.Proofs.EventReplay
+import LdkModel.Proofs.InterceptRegen
 namespace Ldk.C10
 open Ldk.Restart
 
@@ -700,5 +701,80 @@ example : (let s := erun (fun full => if full then [(false, true), (true, false)
 /-- a manager copy written before the closure (stale): the HTLC is failed through the OutdatedChannelManager path once it is resolved -/
 example : (let s := erun failHtlcPushes [.persist, .close, .timeout, .handle 2, .crash]
     (s.handledTerminal, s.resolved, s.live.queue)) = (true, true, [⟨false, false⟩, ⟨true, false⟩]) := by decide
+
+/-! ## Re-delivery of `Event::HTLCIntercepted` for the HTLCs held in `pending_intercepted_htlcs` (Model/InterceptRegen.lean)
+
+Every op list over intercept / handle k (any handled prefix) / resolve (forward_, fail_intercepted_htlc, expiry) / persist / crash, any
+number of HTLCs held at once, any manager write points, any number of crashes; production (legacy) reload path.  All of it rests on the
+lemmas of Proofs/InterceptRegen about the GENERATED `eventIsFor` (the test of the regeneration loop, translated with Rust's scoping),
+`regenWhen`, `mkInterceptedEvent` and `interceptsFromDisk`. -/
+
+/-- after a restart EVERY intercepted HTLC the node still holds has an `Event::HTLCIntercepted` naming it pending again — whether its
+    event was still in the written queue or had been handled before the manager was written (seeded C10-r5: the generated test no
+    longer depends on the loop key and `eventIsFor_iff`, on which this rests, is false) -/
+theorem intercepted_event_redelivered_after_restart (ops : List IOp) :
+    ∀ kv ∈ (irun (ops ++ [.crash])).live.held, (irun (ops ++ [.crash])).live.eventPending kv.1 = true := by
+  intro kv hkv
+  have hs : irun (ops ++ [.crash]) = istep (irun ops) .crash := by simp [irun, List.foldl_append]
+  rcases (irun_inv (ops ++ [.crash])).k kv hkv with h | h
+  · exact h
+  · rw [hs] at h; simp [istep] at h
+
+/-- at every point of every run: a held intercepted HTLC has its event pending, or the handler of the RUNNING process accepted it
+    (since the last restart) — the application is never left without the intercept id of an HTLC the node holds -/
+theorem intercepted_event_pending_until_handled (ops : List IOp) :
+    ∀ kv ∈ (irun ops).live.held, (irun ops).live.eventPending kv.1 = true ∨ kv.1 ∈ (irun ops).told :=
+  (irun_inv ops).k
+
+/-- the restart neither drops nor invents a held HTLC, and the events of the written queue are all delivered again, first and in order -/
+theorem restart_keeps_held_and_written_events (ops : List IOp) :
+    (irun (ops ++ [.crash])).live.held = (irun ops).disk.held ∧ ∃ r, (irun (ops ++ [.crash])).live.queue = (irun ops).disk.queue ++ r := by
+  have hs : irun (ops ++ [.crash]) = istep (irun ops) .crash := by simp [irun, List.foldl_append]
+  rw [hs]
+  refine ⟨by simp [istep, reloadI, interceptsFromDisk_legacy], ?_⟩
+  simp only [istep, reloadI, interceptsFromDisk_legacy, if_true]
+  exact regen_prefix _ _
+
+/-- no second event is created for an HTLC whose event is in the written queue: if all held HTLCs have one, the queue is unchanged -/
+theorem restart_adds_no_duplicate (d : IcMgr) (h : ∀ kv ∈ d.held, d.eventPending kv.1 = true) : (reloadI false d).queue = d.queue := by
+  simp only [reloadI, interceptsFromDisk_legacy, if_true]
+  have H : ∀ (held : List (Nat × IcHtlc)) (q : List IcEv), (∀ kv ∈ held, q.any (fun e => e.interceptId == kv.1) = true) → regen held q = q := by
+    intro held
+    induction held with
+    | nil => intro q _; rfl
+    | cons a t ih =>
+      intro q hq
+      have h1 := regenStep_noop_of_pending q a (hq a (List.mem_cons_self ..))
+      simp only [regen, List.foldl_cons, h1]
+      exact ih q (fun kv hkv => hq kv (List.mem_cons_of_mem _ hkv))
+  exact H d.held d.queue h
+
+/-- non-vacuity (the scenario of seeded C10-r5): two HTLCs held, the first event handled, the second replayed, manager written, crash:
+    both are pending after the restart — the written one first, the handled one regenerated -/
+example : (let h1 : IcHtlc := ⟨11, some 6000, 5000, 130, some 77⟩; let h2 : IcHtlc := ⟨22, some 8000, 7000, 131, some 77⟩
+    let s := irun [.intercept 1 h1, .intercept 2 h2, .handle 1, .persist, .crash]
+    (heldIds s.live, s.live.queue.map (·.interceptId), s.live.eventPending 1, s.live.eventPending 2, s.told)) = ([1, 2], [2, 1], true, true, []) := by decide
+/-- with the test the translator produces for seeded C10-r5 (`e.interceptId = e.interceptId`: "is there ANY HTLCIntercepted event") the
+    handled HTLC's event is NOT regenerated in the same world -/
+example : (let h1 : IcHtlc := ⟨11, some 6000, 5000, 130, some 77⟩; let h2 : IcHtlc := ⟨22, some 8000, 7000, 131, some 77⟩
+    let held := [(1, h1), (2, h2)]; let q := (mkInterceptedEvent 2 h2).toList
+    (held.foldl (fun q kv => if !(q.any (fun e => decide (e.interceptId = e.interceptId))) then q ++ (mkInterceptedEvent kv.1 kv.2).toList else q) q).map (·.interceptId)) = [2] := by decide
+/-- a resolved (forwarded / failed) HTLC is not held after the restart although its stale event may still be delivered -/
+example : (let h1 : IcHtlc := ⟨11, some 6000, 5000, 130, some 77⟩
+    let s := irun [.intercept 1 h1, .persist, .resolve 1, .persist, .crash]
+    (heldIds s.live, s.live.queue.map (·.interceptId))) = ([], [1]) := by decide
+
+/-- the (re)generated event describes the held HTLC truthfully: its own intercept id, the HTLC's payment hash, the amount that came in,
+    the amount the onion asks to send out, the outgoing expiry and the requested next-hop SCID (over the GENERATED `mkInterceptedEvent`) -/
+theorem intercepted_event_truthful (id : Nat) (h : IcHtlc) (e : IcEv) (he : mkInterceptedEvent id h = some e) :
+    e.interceptId = id ∧ e.paymentHash = h.paymentHash ∧ some e.inboundAmountMsat = h.incomingAmt ∧
+    e.expectedOutboundAmountMsat = h.outgoingAmt ∧ e.outgoingHtlcExpiry = some h.outgoingCltv ∧ some e.requestedNextHopScid = h.fwdScid := by
+  unfold mkInterceptedEvent at he
+  cases ha : h.incomingAmt <;> cases hs : h.fwdScid <;> simp [ha, hs] at he
+  subst he
+  simp
+
+/-- non-vacuity -/
+example : mkInterceptedEvent 1 ⟨11, some 6000, 5000, 130, some 77⟩ = some ⟨77, 11, 6000, 5000, 1, some 130⟩ := by decide
 
 end Ldk.C10
